@@ -91,6 +91,9 @@ def evaluate(prop, variants, base_keys, seed=0, src_root=None, jobs=None):
         new = [(k, rule) for k, rule in failed if k not in base_keys]
         if status == "skipped":
             verdict = "skipped"
+        elif v.expect == "noalarm":
+            # a behaviour-preserving refactoring: silence or 'cannot decide' are both acceptable, a VIOLATION is a false alarm
+            verdict = "ok" if status == "broken" or not new else "miss"
         elif status == "broken":
             # a fire variant answered with ANALYSIS-BROKEN is not a detection; a silent one is an alarm of sorts
             verdict = "ok" if v.expect == "undecided" else "miss"
@@ -124,8 +127,26 @@ def seeded_variants(prop):
     return out
 
 
+def refactor_variants(prop):
+    """Behaviour-preserving refactorings kept under /verif/refactors/<name>/: the property's check must not raise an alarm on them."""
+    import json
+    base = os.path.join(os.path.dirname(os.path.dirname(os.path.abspath(__file__))), "refactors")
+    out = []
+    if os.path.isdir(base):
+        for name in sorted(os.listdir(base)):
+            d = os.path.join(base, name)
+            meta, patch = os.path.join(d, "meta.json"), os.path.join(d, "patch.diff")
+            if os.path.isfile(meta) and os.path.isfile(patch):
+                try:
+                    if json.load(open(meta)).get("property") == prop:
+                        out.append(V("refactor:" + name, "", "", "", expect="noalarm", patch=patch))
+                except Exception:
+                    pass
+    return out
+
+
 def run_selftest(r):
-    variants = list(getattr(r.mod, "VARIANTS", None) or []) + seeded_variants(r.rep.prop)
+    variants = list(getattr(r.mod, "VARIANTS", None) or []) + seeded_variants(r.rep.prop) + refactor_variants(r.rep.prop)
     if not variants:
         r.rep.selftest = {"variants": 0, "note": "no self-test catalogue for this property"}
         return
@@ -136,6 +157,8 @@ def run_selftest(r):
         "variants": len(results),
         "fire_ok": sum(1 for x in results if x["verdict"] == "ok" and x["expect"] == "fire"),
         "silent_ok": sum(1 for x in results if x["verdict"] == "ok" and x["expect"] == "silent"),
+        "refactorings_without_alarm": sum(1 for x in results if x["verdict"] == "ok" and x["expect"] == "noalarm"),
+        "refactorings_undecided": [x["variant"] for x in results if x["expect"] == "noalarm" and x["status"] == "broken"],
         "skipped": [x["variant"] for x in results if x["verdict"] == "skipped"],
         "misses": misses,
         "results": results,
@@ -149,7 +172,7 @@ def main(argv):
     import importlib
     prop = argv[0]
     mod = importlib.import_module(f"prsa.props.{prop}")
-    variants = [v for v in list(getattr(mod, "VARIANTS", [])) + seeded_variants(prop) if len(argv) < 2 or argv[1] in v.name]
+    variants = [v for v in list(getattr(mod, "VARIANTS", [])) + seeded_variants(prop) + refactor_variants(prop) if len(argv) < 2 or argv[1] in v.name]
     from .__main__ import run_property
     try:
         _, rep = run_property(prop, "quick", 0, write_evidence=False, quiet=True, selftest=False)
@@ -161,7 +184,7 @@ def main(argv):
     bad = 0
     for x in res:
         flag = {"ok": "ok  ", "miss": "MISS", "skipped": "skip"}[x["verdict"]]
-        print(f"{flag} {x['expect']:6} {x['variant']:40} {x['status']:8} {('; '.join(x['new_failures']))[:150]} {x['message']}")
+        print(f"{flag} {x['expect']:7} {x['variant']:40} {x['status']:8} {('; '.join(x['new_failures']))[:150]} {x['message']}")
         bad += x["verdict"] == "miss"
     print(f"{len(res)} variants, {bad} misses, {sum(1 for x in res if x['verdict']=='skipped')} skipped")
     return 1 if bad else 0
